@@ -436,6 +436,19 @@ func ruleRejections(c *Ctx, rf *readerFacts, rule string) {
 			}
 		}
 		if kind == "" {
+			// the marker rejection in guard form: reached exactly when the marker is neither 0xFE nor 0xFD
+			for _, rb := range callsNamed(fn, "(bufio.Reader).ReadByte") {
+				if rb.Value() == nil || rb.Value().Referrers() == nil {
+					continue
+				}
+				for _, u := range *rb.Value().Referrers() {
+					if e, isE := u.(*ssa.Extract); isE && e.Index == 0 && excludedOnAllPaths(fn, e, b, 254, 253) {
+						kind = "marker"
+					}
+				}
+			}
+		}
+		if kind == "" {
 			r.Fail(rule, "Reader.Read rejection at unknown guard", c.Pos(ret.Pos()), "a frame is rejected under a condition that is not one of the known rejection kinds: well-formed frames can be dropped here")
 			continue
 		}
